@@ -213,6 +213,17 @@ structure UplResult where
   nextSub : Nat
   deriving DecidableEq, Repr
 
+/-- The body of the `for _, objectEntity := range objectEntities` loop of `ListMultipartUploads`. -/
+def uplStep (pfx delim : Key) (maxUploads : Nat) (acc : UplResult) (r : Row) : UplResult :=
+  let cps := match codeCP pfx delim r.key with
+    | some c => if acc.cps.contains c then acc.cps else acc.cps ++ [c]
+    | none => acc.cps
+  if acc.uploads.length < maxUploads then
+    { acc with cps := cps,
+               uploads := if codeKeep pfx delim r.key then acc.uploads ++ [r] else acc.uploads,
+               nextKey := r.key, nextSub := r.sub }
+  else { acc with cps := cps }
+
 /-- `sqlMetadataStore.ListMultipartUploads`. `table` = pending rows. -/
 def listMultipartUploads (f : PrefixFilter) (table : List Row) (pfx delim mk : Key) (mu : Nat)
     (maxUploads : Nat) : UplResult :=
@@ -220,16 +231,8 @@ def listMultipartUploads (f : PrefixFilter) (table : List Row) (pfx delim mk : K
   let ents := if delim.isEmpty then (sel.take (maxUploads + 1)).take maxUploads else sel
   let trunc := if delim.isEmpty then decide ((sel.take (maxUploads + 1)).length > maxUploads)
     else decide (sel.length > maxUploads)
-  let z : UplResult := { uploads := [], cps := [], truncated := trunc, nextKey := [], nextSub := 0 }
-  ents.foldl (fun acc r =>
-    let cps := match codeCP pfx delim r.key with
-      | some c => if acc.cps.contains c then acc.cps else acc.cps ++ [c]
-      | none => acc.cps
-    if acc.uploads.length < maxUploads then
-      { acc with cps := cps,
-                 uploads := if codeKeep pfx delim r.key then acc.uploads ++ [r] else acc.uploads,
-                 nextKey := r.key, nextSub := r.sub }
-    else { acc with cps := cps }) z
+  ents.foldl (uplStep pfx delim maxUploads)
+    { uploads := [], cps := [], truncated := trunc, nextKey := [], nextSub := 0 }
 
 /-- `metadatastore.ListPartsResult`. -/
 structure PartsResult where
@@ -376,20 +379,29 @@ def follow (page : Option μ → Option ρ) (truncated : ρ → Bool) (next : ρ
 /-- Enough fuel for a client that gets at least one new entry per truncated page. -/
 def clientFuel (n : Nat) : Nat := n + 2
 
+/-- The marker pair a request carries: the caller's on the first request, afterwards the
+`(key, id)` of the row the previous page named. -/
+def markerOf (mk : Key) (ms : Nat) : Option Row → Key × Nat
+  | none => (mk, ms)
+  | some r => (r.key, r.sub)
+
+/-- The marker state of a ListMultipartUploads request (`key-marker`, `upload-id-marker`). -/
+def uplState (mk : Option Key) (mu : Option Nat) : Option (Key × Nat) → Option Key × Option Nat
+  | none => (mk, mu)
+  | some l => (some l.1, some l.2)
+
 def followObjectsHttp (f : PrefixFilter) (table : List Key) (pfx delim : Key) (maxKeys : Nat)
     (start : Option Key) : List HttpObjPage × FollowEnd :=
-  follow (fun m => httpListObjects f table pfx delim maxKeys (match m with | none => start | some k => some k))
+  follow (fun m => httpListObjects f table pfx delim maxKeys (m.or start))
     (·.truncated) (·.next) (clientFuel table.length) none
 
 def followUploadsHttp (f : PrefixFilter) (table : List Row) (pfx delim : Key) (maxUploads : Nat)
     (mk : Option Key) (mu : Option Nat) : List HttpUplPage × FollowEnd :=
-  follow (fun m => match m with
-      | none => httpListUploads f table pfx delim maxUploads mk mu
-      | some (k, u) => httpListUploads f table pfx delim maxUploads (some k) (some u))
+  follow (fun m => httpListUploads f table pfx delim maxUploads (uplState mk mu m).1 (uplState mk mu m).2)
     (·.truncated) (·.next) (clientFuel table.length) none
 
 def followPartsHttp (parts : List Nat) (maxParts : Nat) (marker : Option Nat) : List HttpPartsPage × FollowEnd :=
-  follow (fun m => httpListParts parts maxParts (match m with | none => marker | some k => some k))
+  follow (fun m => httpListParts parts maxParts (m.or marker))
     (·.truncated) (·.next) (clientFuel parts.length) none
 
 /-- Storage-level ListParts followed through `NextPartNumberMarker`. -/
@@ -401,17 +413,14 @@ def followPartsStorage (parts : List Nat) (maxParts marker : Nat) : List PartsRe
 `NextKeyMarker` / `NextVersionIdMarker`. -/
 def followVersions (f : PrefixFilter) (table : List Row) (pfx delim mk : Key) (mv : Nat)
     (maxKeys : Nat) : List (GroupedPage Row) × FollowEnd :=
-  follow (fun m => some (match m with
-      | none => listObjectVersions f table pfx delim mk mv maxKeys
-      | some (r : Row) => listObjectVersions f table pfx delim r.key r.sub maxKeys))
+  follow (fun m => some (listObjectVersions f table pfx delim (markerOf mk mv m).1 (markerOf mk mv m).2 maxKeys))
     (·.truncated) (·.last) (clientFuel table.length) none
 
 /-- Storage-level ListMultipartUploads followed through NextKeyMarker / NextUploadIdMarker. -/
 def followUploadsStorage (f : PrefixFilter) (table : List Row) (pfx delim mk : Key) (mu : Nat)
     (maxUploads : Nat) : List UplResult × FollowEnd :=
-  follow (fun m => some (match m with
-      | none => listMultipartUploads f table pfx delim mk mu maxUploads
-      | some (k, u) => listMultipartUploads f table pfx delim k u maxUploads))
+  follow (fun (m : Option (Key × Nat)) =>
+      some (listMultipartUploads f table pfx delim (m.getD (mk, mu)).1 (m.getD (mk, mu)).2 maxUploads))
     (·.truncated) (fun r => some (r.nextKey, r.nextSub)) (clientFuel (2 * table.length)) none
 
 /-! ## 8. Reference paging for ListObjects and ListMultipartUploads
@@ -438,9 +447,7 @@ def refUploadsPage (f : PrefixFilter) (table : List Row) (pfx delim : Key) (maxU
 
 def followRefUploads (f : PrefixFilter) (table : List Row) (pfx delim : Key) (maxUploads : Nat)
     (mk : Key) (mu : Nat) : List (GroupedPage Row) × FollowEnd :=
-  follow (fun m => some (match m with
-      | none => refUploadsPage f table pfx delim maxUploads mk mu
-      | some (r : Row) => refUploadsPage f table pfx delim maxUploads r.key r.sub))
+  follow (fun m => some (refUploadsPage f table pfx delim maxUploads (markerOf mk mu m).1 (markerOf mk mu m).2))
     (·.truncated) (·.last) (clientFuel table.length) none
 
 /-! ## 9. What the current statements select -/
